@@ -455,7 +455,13 @@ fn check_applied(
                 if !kps.insert(kb) {
                     bad(w, "duplicate_key_package", "the same key package was added twice".into());
                 }
-                added_names.push(a.signing_identity().credential.as_basic().map(|b| b.identifier.clone()).unwrap_or_default());
+                let cred = &a.signing_identity().credential;
+                added_names.push(
+                    cred.as_basic()
+                        .map(|b| b.identifier.clone())
+                        .or_else(|| cred.as_custom().map(|c| c.data.clone()))
+                        .unwrap_or_default(),
+                );
             }
             Proposal::Psk(x) => {
                 let id = x.mls_encode_to_vec().unwrap_or_default();
@@ -521,7 +527,9 @@ fn soup(w: &mut World) -> Result<(), String> {
     let c = act[w.rng.below(act.len())];
     let cleaf = w.leaf_of(c);
     let timed = w.rng.chance(1, 4);
-    let now = MlsTime::now();
+    // key packages made during the soup start their lifetime "now": the commit time of a timed
+    // soup lies a little later than all of them
+    let now = MlsTime::from_duration_since_epoch(std::time::Duration::from_secs(MlsTime::now().seconds_since_epoch() + 30));
     let mut kp = KpMaker { bad_names: vec![], last_caps: (false, false) };
     let r = soup_inner(w, &mut kp, c, cleaf, timed, now);
     kp.cleanup(w);
@@ -962,12 +970,17 @@ fn soup_inner(w: &mut World, kp: &mut KpMaker, c: usize, cleaf: u32, timed: bool
         }
         let m_has = has.get(&m).cloned().unwrap_or_default();
         // does m lack a proposal the commit references?
-        let lacks_referenced = c_has.iter().any(|i| !m_has.contains(i) && items[*i].bytes.as_ref().map(|b| applied_bytes.contains(b)).unwrap_or(true));
+        // (two identical proposals of one sender under a deterministic signature scheme are one
+        // and the same message: what counts is the set of proposal references a member holds)
+        let m_refs: BTreeSet<&String> = m_has.iter().filter_map(|i| items[*i].bytes.as_ref()).collect();
+        let lacks_referenced = applied_bytes.iter().any(|r| !m_refs.contains(r));
+        let c_refs: BTreeSet<&String> = c_has.iter().filter_map(|i| items[*i].bytes.as_ref()).collect();
+        let same_cache = m_refs == c_refs;
         let base = clones.get(&m).unwrap().clone();
         let g = clones.get_mut(&m).unwrap();
         let cm = out.commit_message.clone();
         let r = if timed { guarded(|| g.process_incoming_message_with_time(cm, now)) } else { guarded(|| g.process_incoming_message(cm)) };
-        w.out.cov.eval(Some(fnv(format!("recv|{lacks_referenced}|{}|{}", applied.len().min(5), m_has == c_has).as_bytes())));
+        w.out.cov.eval(Some(fnv(format!("recv|{lacks_referenced}|{}|{}", applied.len().min(5), same_cache).as_bytes())));
         match r {
             Ok(Ok(ReceivedMessage::Commit(d))) => {
                 if lacks_referenced {
@@ -991,7 +1004,7 @@ fn soup_inner(w: &mut World, kp: &mut KpMaker, c: usize, cleaf: u32, timed: bool
                         format!("member {m} reports {} applied, committer {}; {ctx}", ak.len(), applied_keys.len()),
                     );
                 }
-                if m_has == c_has {
+                if same_cache {
                     let mut uk: Vec<String> = un.iter().map(pkey).collect();
                     uk.sort();
                     w.out.cov.bump("unused_sets_compared");
